@@ -51,6 +51,8 @@ impl<'a> MlpgAdjust<'a> {
     pub fn create(&self, durations: &[usize]) -> Vec<Vec<f64>> {
         let msd_flag = Mask::create(&self.stream, self.msd_threshold, durations);
         let msd_boundaries = msd_flag.boundary_distances();
+        #[cfg(jbonsai_verif)]
+        crate::verif::yield_point(22);
         let mut pars = vec![vec![0.0; self.vector_length]; msd_flag.mask().len()];
 
         for vector_index in 0..self.vector_length {
